@@ -380,4 +380,32 @@ theorem C02_accepted_n (P : Prims) (hP : PrimsOk P) (hE : BlockCipher P.aes) (hH
     est svc rel der hest hsvc hrel hder de ds dd (fun j => decOr (de j)) (fun j => decOr (ds j)) (fun j => decOr (dd j).1)
     (fun j => decOr (dd j).2) (fun j h => (hE' j h).1) (fun j h => (hE' j h).2) hS' (fun j h => (hD' j h).1) (fun j h => (hD' j h).2)
 
+open Stgutg.Proofs.EmulatorWitness in
+set_option maxRecDepth 1000000 in
+/-- the downlink hypotheses of `C02_accepted_one` / `C02_accepted_n` beyond those of `C01_accepted_n` are satisfiable: for the
+    configuration and choice of the recorded registration (RAN-UE-NGAP-ID 6, PDU session identity 11; `cheapPrims` satisfy the
+    hypotheses on primitives: `cheapPrims_ok`) the specification encoders produce the setup request, the INITIAL CONTEXT SETUP
+    REQUEST with the Service Accept, and the two messages of de-registration, all within the receive buffer, and the assigned
+    addresses / TEID are in range. (That `C02_accepted_n_for_downlink`'s reading hypotheses are satisfiable is what
+    `C02_accepted_n` shows: it derives them from these messages. The evaluated end-to-end witness is `C02_accepted_witness`.) -/
+example : (match reg1Choices.head? with
+    | some ch =>
+      (match Spec.AmfDl.dlEstablish cheapPrims (specOf reg1Cfg reg1Abba) 0 ch 6 11 1 3,
+             Spec.AmfDl.dlService cheapPrims (specOf reg1Cfg reg1Abba) 0 ch 6 11 3 4,
+             Spec.AmfDl.dlDeregister cheapPrims (specOf reg1Cfg reg1Abba) 0 ch 6 (deregDlCount 1 1 0) with
+       | some dE, some dS, some (dD1, dD2) =>
+         decide (dE.length ≤ 2048) && decide (dS.length ≤ 2048) && decide (dD1.length ≤ 2048) && decide (dD2.length ≤ 2048) &&
+         decide (ch.ueIp.length = 4) && decide (ch.upfIp.length = 4) && decide (ch.teid < 2 ^ 32)
+       | _, _, _ => false)
+    | none => false) = true := by decide +kernel
+
+/-- … and the identifiers the example uses are the emulator's: `CreateUE` gives the first UE of that configuration the
+    RAN-UE-NGAP-ID 6 and the procedures compute the PDU session identity 11 -/
+example : (createUE Proofs.EmulatorWitness.reg1Cfg 0).ctx.ranUeNgapId = 6 ∧
+    (pduIdOf ((Model.UeIdentity.decVal Proofs.EmulatorWitness.reg1Cfg.imsi + 0 : Nat) : Int)).toNat = 11 := by decide +kernel
+
+/-- the clamps of the statement for counts above, below and at N, negative and zero: N = 3, pdu = 5, svc = 2, rel = 7, dereg = −1
+    give est = 3, svc = 2, rel = 3, der = 0 -/
+example : min 3 (5 : Int).toNat = 3 ∧ min 3 (2 : Int).toNat = 2 ∧ min 3 (7 : Int).toNat = 3 ∧ min 3 (-1 : Int).toNat = 0 := by decide
+
 end Stgutg.Props.C02
